@@ -177,6 +177,12 @@ def schema_argument(rng, *, modal=False, quant=False, ident=False, depth=2, enum
         lambda: ([A, box(dia(B)), dia(dia(C))], dia(A)),
         lambda: ([box(dia(A)), dia(B), box(C)], dia(C)),
     ]
+    # one box-type premise seeing SEVERAL successor worlds at once (two or more diamonds at the same world)
+    fanout_modal = [
+        lambda: ([box(A), dia(B), dia(C)], dia(b2(O.Conjunction, A, B))),
+        lambda: ([box(b2(cond, A, B)), dia(A), dia(C)], dia(B)),
+        lambda: ([neg(dia(A)), dia(B), dia(C), dia(neg(B))], neg(box(A))),
+    ]
     redundant_modal = [
         lambda: ([box(A), dia(A)], C),
         lambda: ([box(A), dia(b2(O.Conjunction, A, B))], C),
@@ -226,7 +232,7 @@ def schema_argument(rng, *, modal=False, quant=False, ident=False, depth=2, enum
     if ident:
         pool = pool[:6] + idents * 2 + (idents_modal * 3 if modal else [])
     if modal:
-        pool += modals * 2 + redundant_modal * 2 + blowup_modal * 2
+        pool += modals * 2 + redundant_modal * 2 + blowup_modal * 2 + fanout_modal * 2
     if quant:
         pool += redundant_quant + multi_quant * 2
     if quant:
